@@ -588,6 +588,89 @@ func (g *c13ValGen) leaf(name string, isPath bool) *c13J {
 
 var c13Keys = []string{"a", "b", "k1", "zz", "0", "10", "é", "x y", "a&b"}
 
+// c13MapKeyNames: n distinct run-time keys of a typed map whose element type is elem, adversarial
+// relative to the scheme that derives an entry's name under outs/ from (key, element type): for a
+// base k also k.<ext>, k.<other ext>, "k.", ".<ext>", the bare extension, several dots, case
+// variants, names that look like array elements ("0", "00", "1.<ext>").  illegal: additionally one
+// key that is not a legal file name.
+func c13MapKeyNames(rng *rand.Rand, elem *c13Ty, n int, illegal bool) ([]string, []string) {
+	tags := map[string]bool{}
+	ext := c13UserTypes[rng.Intn(len(c13UserTypes))]
+	for e := elem; e != nil; e = e.Elem {
+		if e.Kind == "f" && e.Ext != "" {
+			ext = e.Ext
+		}
+	}
+	other := c13UserTypes[rng.Intn(len(c13UserTypes))]
+	atoms := []string{"a", "b", "k1", "zz", "0", "10", "é", "x y", "a&b", "report", "A", "00"}
+	variant := func(a string) string {
+		switch rng.Intn(14) {
+		case 0:
+			tags["key-with-own-ext"] = true
+			return a + "." + ext
+		case 1:
+			return a + "." + other
+		case 2:
+			return a + "."
+		case 3:
+			return "." + ext
+		case 4:
+			return ext
+		case 5:
+			tags["key-with-own-ext"] = true
+			return a + "." + ext + "." + ext
+		case 6:
+			if u := strings.ToUpper(a); u != a {
+				return u
+			}
+			return strings.ToLower(a)
+		case 7:
+			return "1." + ext
+		case 8:
+			return a + "_" + ext
+		case 9:
+			return a + "." + strings.ToUpper(ext)
+		}
+		return a
+	}
+	var keys []string
+	have := map[string]bool{}
+	add := func(k string) {
+		if !have[k] && k != "" && k != "." && k != ".." && !strings.ContainsAny(k, "/\x00") && len(k) <= 255 {
+			have[k] = true
+			keys = append(keys, k)
+		}
+	}
+	base := atoms[rng.Intn(len(atoms))]
+	cluster := rng.Intn(5) < 3
+	if cluster && n > 1 {
+		tags["key-cluster"] = true
+		add(base)
+	}
+	for tries := 0; len(keys) < n && tries < 60; tries++ {
+		a := base
+		if !cluster || rng.Intn(4) == 0 {
+			a = atoms[rng.Intn(len(atoms))]
+		}
+		add(variant(a))
+	}
+	if illegal {
+		tags["illegal-key"] = true
+		bad := []string{"a/b", "..", ".", "", base + "/" + base, strings.Repeat("x", 256), "a\x00b", "/" + base, base + "/"}[rng.Intn(9)]
+		at := 0
+		if len(keys) > 0 {
+			at = rng.Intn(len(keys) + 1)
+		}
+		keys = append(keys[:at], append([]string{bad}, keys[at:]...)...)
+	}
+	var ts []string
+	for t := range tags {
+		ts = append(ts, t)
+	}
+	sort.Strings(ts)
+	return keys, ts
+}
+
 func (g *c13ValGen) scalar(mro string) *c13J {
 	switch mro {
 	case "int":
@@ -644,16 +727,14 @@ func (g *c13ValGen) value(t *c13Ty, name string) *c13J {
 			g.tag("empty-map")
 		}
 		r := &c13J{K: 'O'}
-		perm := g.rng.Perm(len(c13Keys))
-		for i := 0; i < n; i++ {
-			k := c13Keys[perm[i]]
+		// run-time keys, adversarial relative to the scheme that names the entries under outs/
+		keys, ktags := c13MapKeyNames(g.rng, t.Elem, n, g.nearMis && g.rng.Intn(4) == 0)
+		for _, kt := range ktags {
+			g.tag(kt)
+		}
+		for i, k := range keys {
 			r.Keys = append(r.Keys, k)
 			r.Vals = append(r.Vals, g.value(t.Elem, name+"_k"+strconv.Itoa(i)))
-		}
-		if g.nearMis && g.rng.Intn(6) == 0 {
-			g.tag("illegal-key")
-			r.Keys = append(r.Keys, []string{"a/b", "..", ""}[g.rng.Intn(3)])
-			r.Vals = append(r.Vals, g.value(t.Elem, name+"_kx"))
 		}
 		return r
 	case "t":
@@ -678,7 +759,7 @@ func (g *c13ValGen) value(t *c13Ty, name string) *c13J {
 	return c13Null
 }
 
-var c13OutOfDomain = map[string]bool{"illtyped": true, "illegal-key": true, "struct-missing-key": true,
+var c13OutOfDomain = map[string]bool{"illtyped": true, "struct-missing-key": true,
 	"struct-extra-key": true, "overlap": true, "relative-path": true, "symlinked-parent-outside": true}
 
 type c13Stats struct {
@@ -769,6 +850,19 @@ func c13Direct(c *Ctx, r *Result, idx int, seed int64, nearMiss, overlap bool, c
 	extBefore := c13Snapshot([]string{g.ext}, cs, nil)
 	before := c13Snapshot([]string{root}, cs, nil)
 
+	// ---- the verification gate the runtime applies to every stage / pipeline output before it
+	// can complete (Fork.verifyOutput -> LazyArgumentMap.ValidateOutputs -> Type.IsValidJson) ----
+	gateOK, gateMsg := true, ""
+	{
+		lam := core.LazyArgumentMap{}
+		for i, p := range params {
+			lam[p.Id] = json.RawMessage(outs.Vals[i].String())
+		}
+		if err, _ := lam.ValidateOutputs(lookup, stage.OutParams); err != nil {
+			gateOK, gateMsg = false, err.Error()
+		}
+	}
+
 	// ---- the real code: processStructOuts / handleOuts around moveOutFiles ----
 	anyFile := false
 	for _, p := range params {
@@ -825,6 +919,17 @@ func c13Direct(c *Ctx, r *Result, idx int, seed int64, nearMiss, overlap bool, c
 			inDomain = false
 		}
 	}
+	if g.tags["illegal-key"] {
+		// a typed-map key that is not a legal file name: in the domain of the property exactly when
+		// output verification lets it through (then the pipestance could complete with this record)
+		if gateOK {
+			r.hist("direct:illegal-key:accepted-by-verification")
+		} else {
+			r.hist("direct:illegal-key:refused-by-verification")
+			inDomain = false
+		}
+	}
+	_ = gateMsg
 	sort.Strings(tags)
 	for _, t := range tags {
 		r.hist("direct:leaf:" + t)
@@ -868,6 +973,13 @@ func c13Direct(c *Ctx, r *Result, idx int, seed int64, nearMiss, overlap bool, c
 		for _, p := range params {
 			mon.walk(p.Id, p, outs.get(p.Id), post.get(p.Id), outsPath)
 		}
+		{
+			// model-free: every moved leaf recorded at a location of its own below outs/
+			own := newC13Mon(ps)
+			own.pre, own.kind, own.occ = mon.pre, mon.kind, mon.occ
+			c13OwnLocationRecord("", params, own, outs, post, outsPath, map[string]string{})
+			mon.fails = append(own.fails, mon.fails...)
+		}
 		if len(mon.fails) > 0 {
 			for i := range mon.fails {
 				mon.fails[i] = strings.ReplaceAll(mon.fails[i], root, "$ROOT")
@@ -903,6 +1015,18 @@ func c13Direct(c *Ctx, r *Result, idx int, seed int64, nearMiss, overlap bool, c
 			}
 			r.violate(Violation{Kind: "property", Key: "C13:overlapping-outputs", What: "an output inside another (directory) output: " + strings.Join(mon.fails, "; "),
 				Input: cas, Impl: strings.ReplaceAll(realStr, root, "$ROOT")})
+		}
+	}
+
+	// ---- the model's reading of the gate (keysVerified) against the real one ----
+	{
+		mk := c.Drv.Ask("C13.keysok", c13EncParams(params), outs.encStr())
+		r.hist(fmt.Sprintf("direct:gate:real=%v,model-keysVerified=%s", gateOK, mk))
+		otherNearMiss := g.tags["illtyped"] || g.tags["struct-missing-key"] || g.tags["struct-extra-key"]
+		if (gateOK && mk != "true") || (!gateOK && mk != "false" && !otherNearMiss) {
+			r.violate(Violation{Kind: "correspondence", Key: "C13:verification-gate", Broken: "verified_outputs_keep_all_keys (hypothesis keysVerified = what TypedMapType.IsValidJson demands of keys)",
+				What:  fmt.Sprintf("output verification (ValidateOutputs) accepted=%v, the model's keysVerified=%s: %s", gateOK, mk, c13Short(gateMsg)),
+				Input: cas})
 		}
 	}
 
@@ -1173,6 +1297,9 @@ func runC13(c *Ctx) {
 
 	// writer round trip on the model side (parse ∘ emit) for generated trees
 	c13WriterRoundTrip(c, r)
+
+	// GetOutFilename on run-time keys vs outFilename; injectivity per map
+	c13NamesStream(c, r)
 
 	// the forced-dimension modes of the driver on the input of multidim_not_moved_before_fix
 	c13DimWitness(c, r)
